@@ -25,6 +25,9 @@ def main():
     elif a.prop in ('C12', 'C13', 'C14', 'C15'):
         from checks import tracker_driver
         tracker_driver.main(a.prop, a.tier)
+    elif a.prop == 'C11':
+        from checks import c11
+        c11.main(a.tier)
     elif a.prop == 'C05':
         from checks import c05
         c05.main(a.tier)
